@@ -39,6 +39,21 @@ def run(tier):
         r = tlc_must_pass("c19_mem%d" % i, "MCArrayMem", cfg, workers=4, timeout=3000)
         rep.add_tlc(r)
         rep.add_replay("arraymem", replay("arraymem", r.replay, "c19_mem%d" % i))
+    # the odometer of the view iterator for lengths and strides of ANY size: inductive invariant (Apalache), and the same
+    # module with concrete large constants run by TLC and replayed (whole histories folded into a hash)
+    w = vcore.apalache_inductive("c19_odometer", "Odometer", "OInit", "ONext", "IndInv", cinit="ConstInit")
+    vcore.apalache_inductive("c19_odometer_ab", "Odometer", "OInit", "ONext", "IndInv", cinit="ConstInitAB", expect_failure=True)
+    rep.extra["apalache_inductive"] = {"module": "Odometer", "invariant": "IndInv", "obligations": 2, "wall_s": round(w, 1),
+                                       "non_vacuity": "refuted under ConstInitAB (AB_NoBackstride)"}
+    w3 = vcore.apalache_inductive("c19_odometer3", "Odometer3", "OInit", "ONext", "IndInv", cinit="ConstInit")
+    vcore.apalache_inductive("c19_odometer3_ab", "Odometer3", "OInit", "ONext", "IndInv", cinit="ConstInitAB", expect_failure=True)
+    rep.extra["apalache_inductive_3_axes"] = {"module": "Odometer3", "invariant": "IndInv", "obligations": 2, "wall_s": round(w3, 1),
+                                              "non_vacuity": "refuted under ConstInitAB (AB_NoBackstride)"}
+    for mod, cs in (("MCOdometer", "abcd"), ("MCOdometer3", "abcde")):
+        for c in cs:
+            r = tlc_must_pass("c19_%s%s" % (mod[2:].lower(), c), mod, "%s_%s.cfg" % (mod, c), workers=1, timeout=600)
+            rep.add_tlc(r)
+            rep.add_replay("array", replay("array", r.replay, "c19_%s%s" % (mod[2:].lower(), c)))
     rep.add_nonvacuity(tlc_must_violate("c19_abmem", "MCArrayMem", "MCArrayMem_abCol.cfg", ["LastWriteWins"], timeout=600))
     for i, (cfg, expected) in enumerate(SABOTAGE):
         rep.add_nonvacuity(tlc_must_violate("c19_ab%d" % i, "MCArrayApi", cfg, expected, timeout=600))
